@@ -124,8 +124,11 @@ func main() {
 			os.Exit(2)
 		}
 		ev := *evOut
-		if ev == "" || len(props) > 1 {
+		if ev == "" {
 			ev = filepath.Join(*verif, "evidence", id+".json")
+		} else if len(props) > 1 {
+			// several properties: -evidence names a file of one of them; the others go next to it
+			ev = filepath.Join(filepath.Dir(ev), id+".json")
 		}
 		code := runProp(pc, abs, *verif, *tier, ev, seed, *noKnown, progs, *selftestJSON)
 		if code > exit {
